@@ -30,6 +30,8 @@ fixed = [
  ("C07", "7aa4c85", "ft_sh_phase_screen with an integer seed: sub-harmonic draws repeated the first numbers of the high-frequency stream; structure-function values decreased by up to 4 % (N=8, L0=0.26 N delta: -0.00384 +- 0.00013 over 40000 seeds) instead of only gaining low-frequency power"),
  ("C05", "7ebd098", "infinite von Karman screen unstable for finely sampled screens: PhaseScreenVonKarman(12, 0.01, 0.2, 150) constructs but its row recursion has spectral radius 1.11 (single-precision phase_covariance); screens diverge within ~100 rows"),
  ("C08", "23b1b66", "structure_function_vk(0, r0, L0) and stf_vonKarman(0, L0) returned NaN instead of 0"),
+ ("C07", "9734c23", "ft_phase_screen / ft_sh_phase_screen raised IndexError when the grid size N was an unsigned NumPy integer (numpy.uint8(12), numpy.uint16(200)): -N/2 wrapped around"),
+ ("C11", "dcda3e9", "angularSpectrum added 1e-10 m^2 to the squared input radius: spurious constant phase k/2 (1-m)/z 1e-10 (1e-5 rad on resolved Gaussian beams) and, for nm / pm sized grids, a magnification round trip off by 1e-8 .. 1e-7 (N=33, d=1.35e-10, wvl=1.2e-12, m=2.07)"),
 ]
 open_ = [
  {"property": "C05", "mechanism": "stability:unstable_or_inexact:pixel_scale_below_1e-5_L0",
